@@ -86,6 +86,7 @@ class Agent:
         resp_forms=None,
         v3_resp_forms=None,
         readonly=(),
+        any_context=False,
     ):
         self.db = dict(db or {})
         self._keys = sorted(self.db)
@@ -100,6 +101,12 @@ class Agent:
         self.resp_forms = resp_forms
         self.v3_resp_forms = v3_resp_forms
         self.readonly = set(readonly)
+        self.any_context = any_context
+        # adversary plumbing (vf.adversary / the checks): called with the
+        # request PDU and the conformant response PDU, returns the response
+        # PDU that is actually sent (or None to drop).  The reference agent
+        # itself never deviates.
+        self.pdu_hook = None
         self.counters = Counter()
         self.requests = []  # one record per datagram handled
         self.sets = []  # (oid, value) pairs written
@@ -238,6 +245,9 @@ class Agent:
             rec["pdu"] = msg["pdu"]
             resp = self.process_pdu(msg["pdu"], msg["version"])
             rec["verdict"] = "ok"
+            if resp is not None and self.pdu_hook is not None:
+                rec["conformant_response_pdu"] = resp
+                resp = self.pdu_hook(msg["pdu"], resp)
             if resp is None:
                 return None
             rec["response_pdu"] = resp
@@ -417,13 +427,16 @@ class Agent:
         rec["pdu"] = scoped["pdu"]
         msg = dict(msg)
         msg["_ctx_name"] = scoped["ctx_name"]
-        if scoped["ctx_engine"] != self.engine_id:
+        if scoped["ctx_engine"] != self.engine_id and not self.any_context:
             self.counters["unknown_context_engine"] += 1
             rec["verdict"] = "unknown_context_engine"
             return None
         rec["verdict"] = "ok"
         self.counters["v3_ok"] += 1
         resp = self.process_pdu(scoped["pdu"], 3)
+        if resp is not None and self.pdu_hook is not None:
+            rec["conformant_response_pdu"] = resp
+            resp = self.pdu_hook(scoped["pdu"], resp)
         if resp is None:
             return None
         rec["response_pdu"] = resp
